@@ -4,6 +4,7 @@ import glob
 import json
 import os
 
+from props import sim_e2e
 from props.C36 import SimSpec
 from tools import sim, vlib
 
@@ -17,8 +18,9 @@ EXPLANATION = (
     "Two drivers are used: the scripted/seeded driver (comparable with the model) and bolero's real byte-slice driver "
     "fed random bytes (the driver fuzz_repro uses). Coq theorems proved (Props/C38.v): scheduling predicates "
     "(can_run, readiness) do not depend on the keyed maps' iteration order; a witness shows decision outcomes DO, i.e. "
-    "replay relies on FxHash/hashbrown iteration being deterministic, which is not modelled. Not covered: compiled "
-    "end-to-end simulations (CompiledSim::fuzz_repro with a DFIR program, tokio scheduling, LaunchedSim::step).")
+    "replay relies on FxHash/hashbrown iteration being deterministic, which is not modelled. Compiled end-to-end "
+    "simulations: small Hydro programs compiled by the real pipeline are replayed with CompiledSim::fuzz_repro on random "
+    "decision bytes, twice in one process and once in a fresh process; decision log text and outputs must be identical.")
 
 
 class C38(SimSpec):
@@ -31,7 +33,7 @@ class C38(SimSpec):
     trusted_base = ["coqc 8.16.1 kernel", "Gallina model coq/theories/Sim/Model.v",
                     "harness h_sim (scripted driver; bolero ByteSliceDriver as in fuzz_repro); verif_run_hooks_logged hook"]
     assumptions = ["FxHashMap iteration order is deterministic for equal insertion histories (observed, not modelled)",
-                   "instances are hook lists under run_hooks, not compiled DFIR simulations",
+                   "most instances are hook lists under run_hooks; a few compiled DFIR simulations (4 programs) are replayed too",
                    "the decision-log text is compared with colours disabled (NO_COLOR)"]
     rule = ("corpus instance (hook list + rounds of pushes) x random decision input (seeded scripted driver, or random bytes for "
             "the real byte-slice driver); each run twice in-process and once in a fresh process; non-trivial = at least one "
@@ -128,6 +130,13 @@ def main(ctx):
 
     def fin(c, level, coverage, assumptions, extra=None):
         coverage["explanation"] = EXPLANATION
+        if not c.replay:
+            summary, bad = sim_e2e.run_replay(c, c.rng.fork())
+            coverage.update(summary)
+            for case, res, v in bad[:2]:
+                path = vlib.write_replay(c, {"property": c.prop, "kind": "compiled simulation replay differs",
+                                             "case": case, "impl": res, "verdict": v})
+                c.violations.append((path, ""))
         return orig(c, level, coverage, assumptions, extra)
 
     vlib.finish = fin
